@@ -1,2 +1,4 @@
-/- C12 — kernel notation round trips (token level): theorems are in Props/C12Kernel.lean. -/
+/- C12 — kernel notation round trips: token level in Props/C12Kernel.lean; character level (kernel string → parser →
+   resolve_kernel_loops = identity) in Props/C12Text.lean. -/
 import DsdVerif.Props.C12Kernel
+import DsdVerif.Props.C12Text
